@@ -360,7 +360,8 @@ def diff_snap(a, b):
 def build_pool(ctx, rng, n):
     """n class models sharing class names; each gets a unique extra class."""
     specs = []
-    for i in range(n):
+    for _try in range(n):
+        i = len(specs)      # the index this model gets (builds may fail)
         profile = 'unamb' if rng.random() < 0.7 else 'free'
         spec = G.gen_model(rng, profile)
         spec = H.clean_spec(spec)
